@@ -11,7 +11,7 @@ struct UserError { int k; };
 struct UserStdError : std::out_of_range, UserError { UserStdError(int k_) : std::out_of_range("user"), UserError{k_} {} };
 
 struct Sub { int fiber; int kind; uint64_t bit; long call = -1, ret = -1, exec_step = -1; int exec_idx = -1; int execs = 0; int exec_fiber = -1; bool threw_out = false;
-             std::future<int> fi; std::future<void> fv; bool has_fi = false, has_fv = false; bool functor_throws = false; bool fault_threw = false; bool std_exc = false; };
+             std::future<int> fi; std::future<void> fv; bool has_fi = false, has_fv = false; bool functor_throws = false; bool fault_threw = false; bool std_exc = false; bool touch_other = false; };
 
 struct St {
     std::deque<Sub> subs;
@@ -19,7 +19,7 @@ struct St {
     int shared_alive = 0;
     int in_functor = 0;
     std::vector<uint64_t> order;       // bits in execution order
-    bool lbl_queued = false, lbl_direct = false, lbl_reader_blocked_writer = false, lbl_try_null = false;
+    bool lbl_queued = false, lbl_direct = false, lbl_reader_blocked_writer = false, lbl_try_null = false, lbl_nested_other = false, lbl_other_queued = false;
 };
 St* S = nullptr;
 
@@ -66,10 +66,15 @@ vh::Outcome run_def(const vh::Case& c, Prop prop) {
         std::unique_ptr<D> dp(ctor_from_rvalue(c) ? new D(Tracked(uint64_t(0))) : new D(uint64_t(0)));
         D& d = *dp;
         vrt::MutexCore* core = vrt::rt().mutexes.empty() ? nullptr : vrt::rt().mutexes[0];     // m_mutex is the first mutex the wrapper constructs
+        // a second instance of the very same type: functions queued on the first may read it, and it has queued modifications of its own
+        // (anything the wrapper keeps per thread or per type instead of per object shows up here)
+        std::unique_ptr<D> dp2(new D(uint64_t(0)));
+        D& d2 = *dp2;
+        int sub2 = 0, exec2 = 0;
         constexpr bool share_capable = std::is_same<M, vstd::shared_mutex>::value || std::is_same<M, vstd::shared_timed_mutex>::value;
         auto owns_shared = [&] { return core && (share_capable ? core->shared_by[vrt::self()] > 0 : core->owner == vrt::self()); };
         // the functor every submission runs
-        auto body = [&st, faults](Sub& s, Tracked& t) {
+        auto body = [&st, faults, &d2](Sub& s, Tracked& t) {
             s.execs++;
             if (s.execs > 1) vrt::fail("executed-twice", "a submitted modification was executed more than once");
             if (st.shared_alive > 0) vrt::fail("modify-under-reader", "a modification ran while a shared handle was alive");
@@ -79,6 +84,7 @@ vh::Outcome run_def(const vh::Case& c, Prop prop) {
             if (faults) { try { vrt::fault_point(vrt::F_FUNCTOR); } catch (...) { st.in_functor--; s.fault_threw = true; throw; } }
             t.or_bits(s.bit);
             st.order.push_back(s.bit);
+            if (s.touch_other) { st.lbl_nested_other = true; auto h2 = d2.lock_shared(); if (!h2) vrt::fail("null-handle", "lock_shared on the second instance returned null"); (void)h2->read(); }
             st.in_functor--;
             if (s.functor_throws) { if (s.std_exc) throw UserStdError(s.exec_idx); throw UserError{s.exec_idx}; }
         };
@@ -91,11 +97,19 @@ vh::Outcome run_def(const vh::Case& c, Prop prop) {
                     int kind = op.code % 8;
                     bool detach_throws = false;
                     if (kind == 0 && (op.b & 4) && !faults) detach_throws = true;     // a modify_detach whose function throws after modifying
+                    if (!faults && (kind == 0 || kind == 4) && (op.b & 48) == 48) {
+                        // operations on the second instance: a reader that holds it for a while, or a modification that may get queued behind that reader
+                        if (kind == 4) { auto h2 = d2.lock_shared(); for (int s2 = 0; s2 <= (op.b & 3); ++s2) vrt::step(); (void)h2->read(); }
+                        else { sub2++; bool owner_before = vrt::rt().mutexes.size() > 2; (void)owner_before; d2.modify_detach([&exec2](Tracked& t2) { exec2++; t2.or_bits(uint64_t(1)); }); if (exec2 < sub2) st.lbl_other_queued = true; }
+                        if (vrt::me().held != 0) vrt::fail("lock-leaked", "a mutex is still held after an operation on the second instance returned");
+                        continue;
+                    }
                     if (kind <= 3) {
                         st.subs.emplace_back();
                         Sub& s = st.subs.back();
                         s.fiber = me; s.kind = kind; s.bit = uint64_t(1) << (nbit++ % 60);
                         s.functor_throws = (kind == 3) || detach_throws; s.std_exc = (op.b & 2) != 0;
+                        s.touch_other = !faults && (op.b & 48) == 32;              // this function also reads the second instance (after its own modification)
                         s.call = vrt::now_step();
                         try {
                             if (kind == 0 && (op.a & 2)) d.modify_detach(OwningFn([&body, &s](Tracked& t) { body(s, t); }));      // rvalue functor object with owning state
@@ -190,6 +204,9 @@ vh::Outcome run_def(const vh::Case& c, Prop prop) {
             uint64_t v = h->read();
             if (v != all) vrt::fail("final-value", "final value is not the union of all executed modifications");
         }
+        // the second instance: one lock_shared applies whatever was queued on it, each function exactly once
+        { auto h2 = d2.lock_shared(); if (!h2) vrt::fail("null-handle", "lock_shared on the second instance returned null");
+          if (exec2 != sub2) vrt::fail("stranded", "the second deferred_guarded instance executed " + std::to_string(exec2) + " of " + std::to_string(sub2) + " accepted modifications after quiescence plus one lock_shared"); }
         // order: returned-before-called => executed first
         for (auto& a : st.subs) for (auto& b : st.subs)
             if (a.ret >= 0 && b.call >= 0 && a.ret < b.call && a.execs == 1 && b.execs == 1 && a.exec_idx > b.exec_idx)
@@ -216,6 +233,8 @@ vh::Outcome run_def(const vh::Case& c, Prop prop) {
     S = nullptr;
     out.labels.push_back(std::string("M=") + MC<M>::name);
     if (st.lbl_queued) out.labels.push_back("queued-path");
+    if (st.lbl_nested_other) out.labels.push_back("function-read-second-instance");
+    if (st.lbl_other_queued) out.labels.push_back("second-instance-queued");
     if (st.lbl_direct) out.labels.push_back("direct-path");
     if (st.lbl_try_null) out.labels.push_back("try-null");
     if (out.res.faults_fired) out.labels.push_back("fault-fired");
